@@ -9,22 +9,21 @@
 (***************************************************************************)
 EXTENDS ConfigOps, TLC
 CONSTANTS WholeEntry, ParentGroupApplies, OnlySingleMention
-VARIABLE stack
+VARIABLE c      \* c[k] in 0..3 : content of the k-th main section (1..4 source 1, 5..8 source 2); c[9..11] in 0..1 : per-file sections of source 2
 Attrs == {"a", "b"}
-SecVals(i, s, k) == \* the four possible contents of section s of source i; values identify their origin
+Sec(i, k, v) ==  \* v: 0 absent, 1 {a}, 2 {b}, 3 {a, b}; values identify their origin
   LET base == i * 100 + k * 2 IN
-  {NoSec, [x \in {"a"} |-> base], [x \in {"b"} |-> base + 1], [x \in {"a", "b"} |-> IF x = "a" THEN base ELSE base + 1]}
-MainIdx(s) == CHOOSE k \in 1..4 : MainSecs[k] = s
-Sources(i, perFile) ==
-  {src \in [Range(AllSecs) -> UNION {SecVals(i, s, 0) : s \in Range(AllSecs)} \cup {[x \in {"a"} |-> i * 100 + 50], [x \in {"a"} |-> i * 100 + 52], [x \in {"a"} |-> i * 100 + 54]}] :
-     /\ \A s \in Range(MainSecs) : src[s] \in SecVals(i, s, MainIdx(s))
-     /\ src["fl_global"] \in (IF perFile THEN {NoSec, [x \in {"a"} |-> i * 100 + 50]} ELSE {NoSec})
-     /\ src["fl_rule"]   \in (IF perFile THEN {NoSec, [x \in {"a"} |-> i * 100 + 52]} ELSE {NoSec})
-     /\ src["fr_rule"]   \in (IF perFile THEN {NoSec, [x \in {"a"} |-> i * 100 + 54]} ELSE {NoSec})
-     /\ \A s \in {"fl_gpar", "fl_gsub", "fr_global", "fr_gpar", "fr_gsub"} : src[s] = NoSec}
-Init == stack \in {<<s1, s2>> : s1 \in Sources(1, FALSE), s2 \in Sources(2, TRUE)}
-Next == UNCHANGED stack
-Spec == Init /\ [][Next]_stack
+  CASE v = 0 -> NoSec [] v = 1 -> [x \in {"a"} |-> base] [] v = 2 -> [x \in {"b"} |-> base + 1]
+    [] OTHER -> [x \in {"a", "b"} |-> IF x = "a" THEN base ELSE base + 1]
+Src(i, off, perFile) ==
+  [s \in Range(AllSecs) |->
+     CASE s = "global" -> Sec(i, 1, c[off + 1]) [] s = "gpar" -> Sec(i, 2, c[off + 2]) [] s = "gsub" -> Sec(i, 3, c[off + 3]) [] s = "rule" -> Sec(i, 4, c[off + 4])
+       [] s = "fl_global" /\ perFile -> Sec(i, 25, c[9]) [] s = "fl_rule" /\ perFile -> Sec(i, 26, c[10]) [] s = "fr_rule" /\ perFile -> Sec(i, 27, c[11])
+       [] OTHER -> NoSec]
+stack == <<Src(1, 0, FALSE), Src(2, 4, TRUE)>>
+Init == c \in {f \in [1..11 -> 0..3] : f[9] <= 1 /\ f[10] <= 1 /\ f[11] <= 1}
+Next == UNCHANGED c
+Spec == Init /\ [][Next]_c
 C12_Precedence == (OnlySingleMention => SingleMention(stack)) =>
                      \A x \in Attrs : Agrees(stack, x, 0, WholeEntry, TRUE, ParentGroupApplies)
 =============================================================================
